@@ -11,13 +11,21 @@
 //   point involved.
 // Stage B (small networks, GKFparser -> remove_inconsistency -> Acord2 ->
 //   refine_obsdh_reductions -> LocalNetwork::project_equations(A,b,w), i.e. the
-//   route of gama-local): 3 points, 25 observations of all 13 types in 6
-//   clusters (two stations with directions = two orientation unknowns), every
-//   ordered triple of horizontally distinct points of {0,100}^2 (x heights) x
-//   all 729 status combinations (written as fix=/adj= attributes) x frames x
-//   offsets x 4 algorithms x 2 value variants x 2 sigma-apr (see stageB()).
+//   route of gama-local): 5 points -- A, B, C with xy and z, D with a height
+//   only (adj="z"|"Z"|fix="z"), E with xy only -- and 32 observations of all 13
+//   types in 7 clusters (two stations with directions = two orientation
+//   unknowns); placements on {0,100}^2 x heights x every status combination
+//   (9^3 x 3 x 3, written as fix=/adj= attributes) x frames x offsets x
+//   4 algorithms x 2 value variants x 2 sigma-apr (see stageB()).  Every network
+//   is then RE-LINEARISED ON THE SAME OBJECT after update_points(),
+//   update_observations(), update_residuals(), solve()+refine_approx_coordinates()
+//   and set_algorithm(next), in an order rotating with the status code; the whole
+//   oracle (column owners a bijection onto 1..unknowns(), no index on fixed or
+//   absent coordinate parts, gama's list of unknowns, every row against the
+//   reference row at the current approximate coordinates, rhs, weights, rows of a
+//   LocalLinearization started from scratch) is evaluated after every build.
 //   project_equations(A,b,w) is first probed in a forked child per algorithm
-//   (it is known to dereference a null pointer with the envelope algorithm).
+//   (it used to dereference a null pointer with the envelope algorithm).
 // Oracle: harness/refobs.h (observation functions from their geometric
 //   definition in long double, Richardson-extrapolated central differences).
 //
@@ -103,8 +111,8 @@ static void compare_coeffs(ro::Type t, const bool expect[10], const LD ref[10], 
     }
   }
 }
-static void compare_rhs(ro::Type t, LD ref, double got, RowResult& r) {
-  LD tol = 1e-7L + 1e-12L * fabsl(ref);
+static void compare_rhs(ro::Type t, LD ref, double got, RowResult& r, LD slack = 0) {
+  LD tol = 1e-7L + 1e-12L * fabsl(ref) + slack;
   LD d = (LD)got - ref;
   if (ro::angular(t)) {
     d = fmodl(d, 4000000.0L); if (d > 2000000.0L) d -= 4000000.0L; if (d <= -2000000.0L) d += 4000000.0L;
@@ -410,19 +418,29 @@ done:
 }
 
 // ================================================================== stage B
+// Networks of 5 points: A, B, C with horizontal position and height (any of the 9 statuses each),
+// D with a height only (adj="z" | adj="Z" | fix="z", no xy: a levelled benchmark) and E with a horizontal
+// position only (adj="xy" | adj="XY" | fix="xy", no z).  32 observations of all 13 types in 7 clusters.
+// Every network is linearised, and then re-linearised ON THE SAME OBJECT in every way the API offers
+// (update_points / update_observations / update_residuals, solve + refine_approx_coordinates, set_algorithm);
+// the whole oracle is evaluated after every build at the then current approximate coordinates.
 struct GObs {            // one generated observation, in the order of the input file
-  ro::Type t; int from, to, fs; double fdh, tdh; LD obs; /* rad | m as written */ double stdev; int station; /* cluster no of the <obs> */
+  ro::Type t; int from, to, fs; double fdh, tdh; LD obs; /* rad | m as written */ LD parsed; /* what the parser makes of the text */ double stdev; int station; /* cluster no of the <obs> */
 };
 static const char* ALGS[4] = { "envelope", "gso", "svd", "cholesky" };
-static const char* PID[3] = { "A", "B", "C" };
+enum { NPB = 5, MAXU = 40 };
+static const char* PID[NPB] = { "A", "B", "C", "D", "E" };
+static const bool HASXY[NPB] = { true, true, true, false, true };
+static const bool HASZ[NPB]  = { true, true, true, true, false };
+static const int NSTATUS_B = 729 * 9;
 
 static std::string num(LD v) { char b[64]; snprintf(b, sizeof b, "%.17g", (double)v); return b; }
 
 struct NetB {
-  std::string xml; std::vector<GObs> G; ro::Geo truth; ro::Frame F; double m0;
+  std::string xml; std::vector<GObs> G; ro::P3 given[NPB]; ro::Frame F; double m0;
 };
 
-static std::string status_attr(int sxy, int sz) {
+static std::string status_attr(int sxy, int sz) {   // sxy / sz: 0 free, 1 fixed, 2 constrained, -1 no such part
   std::string fix, adj;
   if (sxy == 1) fix += "xy";
   if (sz == 1) fix += "z";
@@ -435,17 +453,46 @@ static std::string status_attr(int sxy, int sz) {
   if (!adj.empty()) s += " adj=\"" + adj + "\"";
   return s;
 }
+static void status_of(int status, int q, int& sxy, int& sz) {
+  if (q < 3) { int c = status; for (int r = 0; r < q; r++) c /= 9; c %= 9; sxy = c / 3; sz = c % 3; }
+  else if (q == 3) { sxy = -1; sz = (status / 729) % 3; }
+  else { sxy = (status / 2187) % 3; sz = -1; }
+}
+
+static ro::Geo geo_of(const ro::P3 pts[NPB], const GObs& o) {
+  ro::Geo g; g.p[0] = pts[o.from]; g.p[1] = pts[o.to < 0 ? o.from : o.to]; g.p[2] = pts[o.fs < 0 ? o.from : o.fs]; g.ori = 0;
+  return g;
+}
 
 static NetB build_net(const Lattice& L, int fno, int off, const int pi[3], int status, int alg, int variant, int m0i) {
   NetB n; n.F = ro::frame_no(fno); n.m0 = m0i ? 1.0 : 10.0;
   for (int q = 0; q < 3; q++) {
     const std::array<int, 3>& p = L.pts[pi[q]];
-    n.truth.p[q] = ro::P3((LD)(p[0] + OFFS[off][0]), (LD)(p[1] + OFFS[off][1]), (LD)(p[2] + OFFS[off][2]));
+    n.given[q] = ro::P3((LD)(p[0] + OFFS[off][0]), (LD)(p[1] + OFFS[off][1]), (LD)(p[2] + OFFS[off][2]));
+  }
+  {  // E: the corner of {0,100}^2 not taken by A, B, C (the first free one); D: a height only
+    int ex = 0, ey = 0; bool found = false;
+    for (int cx = 0; cx <= 100 && !found; cx += 100) for (int cy = 0; cy <= 100 && !found; cy += 100) {
+      bool taken = false;
+      for (int q = 0; q < 3; q++) if (L.pts[pi[q]][0] == cx && L.pts[pi[q]][1] == cy) taken = true;
+      if (!taken) { ex = cx; ey = cy; found = true; }
+    }
+    n.given[3] = ro::P3(0, 0, (LD)(20 + OFFS[off][2]));
+    n.given[4] = ro::P3((LD)(ex + OFFS[off][0]), (LD)(ey + OFFS[off][1]), 0);
+  }
+  // variant 0: observations consistent with a geometry displaced by up to 0.3 m from the approximate
+  //            coordinates (so that solve + refine_approx_coordinates moves the free points);
+  // variant 1: observations = value at the approximate coordinates + menu (wraps, +-3 mm)
+  ro::P3 gen[NPB];
+  static const double DISP[NPB][3] = { {0, 0, 0}, {0.21, -0.13, 0.08}, {-0.17, 0.24, -0.11}, {0, 0, 0.15}, {0.12, 0.19, 0} };
+  for (int q = 0; q < NPB; q++) {
+    gen[q] = n.given[q];
+    if (variant == 0) { gen[q].x += DISP[q][0]; gen[q].y += DISP[q][1]; gen[q].z += DISP[q][2]; }
   }
   int cnt = 0;
-  auto add = [&](ro::Type t, int a, int b, int c, double fdh, double tdh, int station) -> GObs& {
+  auto add = [&](ro::Type t, int a, int b, int c, double fdh, double tdh, int station) -> GObs {
     GObs o; o.t = t; o.from = a; o.to = b; o.fs = c; o.fdh = fdh; o.tdh = tdh; o.station = station;
-    ro::Geo g; g.p[0] = n.truth.p[a]; g.p[1] = n.truth.p[b < 0 ? a : b]; g.p[2] = n.truth.p[c < 0 ? a : c]; g.ori = 0;
+    ro::Geo g = geo_of(gen, o);
     ro::Spec s(t, fdh, tdh);
     LD v = ro::value(n.F, s, g);
     // directions: the circle of a station is turned by a station dependent angle (the harness never tells gama)
@@ -457,8 +504,12 @@ static NetB build_net(const Lattice& L, int fno, int off, const int pi[3], int s
       else v += lin_delta(1 + cnt % 2);
     } else if (ro::angular(t) && t != ro::Z_ANGLE && cnt % 3 == 1) v -= ro::TWO_PI;   // same angle, written unnormalised
     o.obs = v; o.stdev = 3.0 + cnt; cnt++;
+    {  // the observed value as parsed: the text written -> double -> (gon to rad)
+      const double written = strtod(num(ro::angular(t) ? ro::rad2gon(v) : v).c_str(), 0);
+      o.parsed = ro::angular(t) ? (LD)written * ro::PI / 200.0L : (LD)written;
+    }
     n.G.push_back(o);
-    return n.G.back();
+    return o;
   };
   std::ostringstream x;
   x << "<?xml version=\"1.0\" ?>\n<gama-local xmlns=\"http://www.gnu.org/software/gama/gama-local\">\n"
@@ -472,15 +523,18 @@ static NetB build_net(const Lattice& L, int fno, int off, const int pi[3], int s
   {
     GObs cx = add(ro::X, 2, -1, -1, 0, 0, -1), cy = add(ro::Y, 2, -1, -1, 0, 0, -1), cz = add(ro::Z, 2, -1, -1, 0, 0, -1);
     GObs ax = add(ro::X, 0, -1, -1, 0, 0, -1), ay = add(ro::Y, 0, -1, -1, 0, 0, -1);
+    GObs dz = add(ro::Z, 3, -1, -1, 0, 0, -1);
     x << "<coordinates>\n<point id=\"C\" x=\"" << val(cx) << "\" y=\"" << val(cy) << "\" z=\"" << val(cz) << "\"/>\n"
-      << "<point id=\"A\" x=\"" << val(ax) << "\" y=\"" << val(ay) << "\"/>\n<cov-mat dim=\"5\" band=\"0\">";
-    for (const GObs* o : { &cx, &cy, &cz, &ax, &ay }) x << " " << num(o->stdev * o->stdev);
+      << "<point id=\"A\" x=\"" << val(ax) << "\" y=\"" << val(ay) << "\"/>\n<point id=\"D\" z=\"" << val(dz) << "\"/>\n<cov-mat dim=\"6\" band=\"0\">";
+    for (const GObs* o : { &cx, &cy, &cz, &ax, &ay, &dz }) x << " " << num(o->stdev * o->stdev);
     x << "</cov-mat>\n</coordinates>\n";
   }
-  for (int q = 0; q < 3; q++) {
-    int c = status; for (int r = 0; r < q; r++) c /= 9; c %= 9;
-    x << "<point id=\"" << PID[q] << "\" x=\"" << num(n.truth.p[q].x) << "\" y=\"" << num(n.truth.p[q].y) << "\" z=\"" << num(n.truth.p[q].z)
-      << "\"" << status_attr(c / 3, c % 3) << "/>\n";
+  for (int q = 0; q < NPB; q++) {
+    int sxy, sz; status_of(status, q, sxy, sz);
+    x << "<point id=\"" << PID[q] << "\"";
+    if (HASXY[q]) x << " x=\"" << num(n.given[q].x) << "\" y=\"" << num(n.given[q].y) << "\"";
+    if (HASZ[q]) x << " z=\"" << num(n.given[q].z) << "\"";
+    x << status_attr(sxy, sz) << "/>\n";
   }
   auto emit = [&](const GObs& o) {
     x << "<" << ro::type_name(o.t);
@@ -491,19 +545,21 @@ static NetB build_net(const Lattice& L, int fno, int off, const int pi[3], int s
     x << " val=\"" << val(o) << "\" stdev=\"" << num(o.stdev) << "\"/>\n";
   };
   x << "<obs from=\"A\">\n";
-  emit(add(ro::DIRECTION, 0, 1, -1, 0, 0, 0)); emit(add(ro::DIRECTION, 0, 2, -1, 0, 0, 0));
+  emit(add(ro::DIRECTION, 0, 1, -1, 0, 0, 0)); emit(add(ro::DIRECTION, 0, 2, -1, 0, 0, 0)); emit(add(ro::DIRECTION, 0, 4, -1, 0, 0, 0));
   emit(add(ro::DISTANCE, 0, 1, -1, 0, 0, 0)); emit(add(ro::ANGLE, 0, 1, 2, 0, 0, 0));
   emit(add(ro::AZIMUTH, 0, 2, -1, 0, 0, 0)); emit(add(ro::S_DISTANCE, 0, 2, -1, 1.6, 0.2, 0));
   emit(add(ro::Z_ANGLE, 0, 1, -1, 1.25, 1.25, 0));
   x << "</obs>\n<obs from=\"B\">\n";
   emit(add(ro::DIRECTION, 1, 0, -1, 0, 0, 1)); emit(add(ro::DIRECTION, 1, 2, -1, 0, 0, 1));
   emit(add(ro::DISTANCE, 1, 2, -1, 0, 0, 1)); emit(add(ro::Z_ANGLE, 1, 2, -1, 0, 0, 1));
-  emit(add(ro::S_DISTANCE, 1, 0, -1, 0, 0, 1)); emit(add(ro::AZIMUTH, 1, 0, -1, 0, 0, 1));
+  emit(add(ro::S_DISTANCE, 1, 0, -1, 0, 0, 1)); emit(add(ro::AZIMUTH, 1, 0, -1, 0, 0, 1)); emit(add(ro::DISTANCE, 1, 4, -1, 0, 0, 1));
   x << "</obs>\n<obs from=\"C\">\n";
   emit(add(ro::ANGLE, 2, 0, 1, 0, 0, 2)); emit(add(ro::DISTANCE, 2, 0, -1, 0, 0, 2));
+  emit(add(ro::ANGLE, 2, 0, 4, 0, 0, 2)); emit(add(ro::DISTANCE, 2, 4, -1, 0, 0, 2));
   x << "</obs>\n<height-differences>\n";
-  for (int e = 0; e < 2; e++) {
-    GObs o = add(ro::H_DIFF, e, e + 1, -1, 0, 0, -1);
+  static const int HD[4][2] = { {0, 1}, {1, 2}, {0, 3}, {3, 2} };
+  for (int e = 0; e < 4; e++) {
+    GObs o = add(ro::H_DIFF, HD[e][0], HD[e][1], -1, 0, 0, -1);
     x << "<dh from=\"" << PID[o.from] << "\" to=\"" << PID[o.to] << "\" val=\"" << val(o) << "\" stdev=\"" << num(o.stdev) << "\"/>\n";
   }
   x << "</height-differences>\n<vectors>\n";
@@ -518,7 +574,8 @@ static NetB build_net(const Lattice& L, int fno, int off, const int pi[3], int s
   return n;
 }
 
-struct StatsB { long long nets, rows, nontrivial, removed; std::map<std::string, long long> oc; StatsB() : nets(0), rows(0), nontrivial(0), removed(0) {} };
+struct StatsB { long long nets, builds, rows, nontrivial, removed, moved; long long occ[ro::NTYPES][7][5]; std::map<std::string, long long> oc;
+  StatsB() : nets(0), builds(0), rows(0), nontrivial(0), removed(0), moved(0) { memset(occ, 0, sizeof occ); } };
 static StatsB SB_;
 
 static ro::Type dyn_type(Observation* o) {
@@ -540,156 +597,159 @@ static ro::Type dyn_type(Observation* o) {
 
 struct RefRowB { LD ref[10]; LD scale; };
 static std::string refkeyB;
-static std::vector<RefRowB> refrowsB;
+static std::vector<RefRowB> refrowsB;      // reference rows at the given (lattice) coordinates of the current placement
 
-static void checkB(const Lattice& L, int fno, int off, const int pi[3], int status, int alg, int variant, int m0i) {
-  const bool verbose = vh::ctx().verbose;
-  std::ostringstream cs;
-  cs << "B:" << L.tag << ":" << fno << ":" << off << ":" << pi[0] << ":" << pi[1] << ":" << pi[2] << ":" << status << ":" << alg << ":" << variant << ":" << m0i;
-  const std::string cstr = cs.str();
+static bool reference_rows_B(const ro::Frame& F, const std::vector<GObs>& G, const ro::P3 pts[NPB], std::vector<RefRowB>& out) {
+  out.assign(G.size(), RefRowB());
+  for (size_t r = 0; r < G.size(); r++) {
+    ro::Geo go = geo_of(pts, G[r]);
+    ro::Spec s(G[r].t, G[r].fdh, G[r].tdh);
+    LD err = 0;
+    ro::reference_row(F, s, go, out[r].ref, &err);
+    out[r].scale = ro::coef_scale(s, go);
+    if (err > 1e-9L * out[r].scale) return false;
+  }
+  return true;
+}
+
+// project_equations(A,b,w) of the current state of the object (probed once per algorithm in a forked child:
+// the failure mode on record was a null pointer dereference with the envelope algorithm)
+static bool build_B(LocalNetwork* ln, int alg, Mat& A, Vec& b, Vec& w, const std::string& cstr) {
   static const bool prof = vh::ctx().opt.count("prof") > 0;
   double tp0 = prof ? vh::elapsed() : 0;
-  NetB n = build_net(L, fno, off, pi, status, alg, variant, m0i);
-  if (prof) { double t = vh::elapsed(); vh::C("prof_us_build", (long long)((t - tp0) * 1e6)); tp0 = t; }
-  const ro::Frame& F = n.F;
-  const std::string cls = std::string(ALGS[alg]) + (F.consistent() ? "|consistent" : "|inconsistent");
-  if (verbose) printf("%s\n", n.xml.c_str());
-  SB_.nets++;
-  std::unique_ptr<LocalNetwork> ln(new LocalNetwork);
-  try {
-    GKFparser gkf(*ln);
-    gkf.xml_parse(n.xml.c_str(), (int)n.xml.size(), 1);
-  } catch (const GNU_gama::local::ParserException& e) {
-    vh::V("harness|generated-input-rejected", cstr, std::string(e.what()) + " line " + std::to_string(e.line)); return;
-  } catch (const GNU_gama::local::Exception& e) {
-    vh::V("harness|generated-input-rejected", cstr, e.what()); return;
-  }
-  if (prof) { double t = vh::elapsed(); vh::C("prof_us_parse", (long long)((t - tp0) * 1e6)); tp0 = t; }
-  Mat A; Vec b, w;
-  try {
-    if (!ln->has_algorithm()) ln->set_algorithm();
-    ln->remove_inconsistency();
-    Acord2 acord2(ln->PD, ln->OD);
-    acord2.execute();
-    refine_obsdh_reductions(ln.get());
-    if (prof) { double t = vh::elapsed(); vh::C("prof_us_acord", (long long)((t - tp0) * 1e6)); tp0 = t; }
-    ln->project_equations();
-    if (prof) { double t = vh::elapsed(); vh::C("prof_us_projeq", (long long)((t - tp0) * 1e6)); tp0 = t; }
-    // Is project_equations(A,b,w) usable with this algorithm?  Probed once per algorithm in a forked
-    // child, because the failure mode on record is a null pointer dereference (SIGSEGV).
-    static int usable[4] = { -1, -1, -1, -1 };
-    static std::string how[4];
-    if (usable[alg] < 0) {
-      fflush(stdout);
-      pid_t pid = fork();
-      if (pid == 0) {
-        try { Mat A2; Vec b2, w2; ln->project_equations(A2, b2, w2); } catch (...) { _exit(3); }
-        _exit(0);
-      }
-      int st = 0; waitpid(pid, &st, 0);
-      usable[alg] = (WIFEXITED(st) && WEXITSTATUS(st) == 0) ? 1 : 0;
-      how[alg] = WIFSIGNALED(st) ? "killed by signal " + std::to_string(WTERMSIG(st)) : "exit status " + std::to_string(WEXITSTATUS(st));
+  ln->project_equations();
+  static int usable[4] = { -1, -1, -1, -1 };
+  static std::string how[4];
+  if (usable[alg] < 0) {
+    fflush(stdout);
+    pid_t pid = fork();
+    if (pid == 0) {
+      try { Mat A2; Vec b2, w2; ln->project_equations(A2, b2, w2); } catch (...) { _exit(3); }
+      _exit(0);
     }
-    if (!usable[alg]) {
-      vh::V(std::string("C05|project_equations(A,b,w)|crash|") + ALGS[alg], cstr,
-            "LocalNetwork::project_equations(Mat&,Vec&,Vec&) in a forked probe: " + how[alg] + " (member Asp is " + (ln->Asp ? "set" : "null") +
-            " after project_equations()); rows taken from AdjInputData::mat() instead");
-      const GNU_gama::SparseMatrix<>* M = ln->Asp ? ln->Asp : ln->input.mat();
-      if (!M) { vh::V("C05|project_equations(A,b,w)|no-design-matrix", cstr, "neither Asp nor input.mat()"); return; }
-      A.reset(M->rows(), M->columns()); A.set_zero(); b.reset(M->rows()); w.reset(M->rows());
-      for (int i = 1; i <= (int)M->rows(); i++) {
-        double* nb = M->begin(i); double* ne = M->end(i); int* ib = M->ibegin(i);
-        while (nb != ne) A(i, *ib++) = *nb++;
-        b(i) = ln->rhs(i); w(i) = ln->weight_obs(i);
-      }
-    } else {
-      ln->project_equations(A, b, w);
-    }
-  } catch (const GNU_gama::local::Exception& e) {
-    vh::V("C05|network-throws|" + cls, cstr, e.what()); return;
-  } catch (const GNU_gama::Exception::base& e) {
-    vh::V("C05|network-throws|" + cls, cstr, e.what()); return;
+    int st = 0; waitpid(pid, &st, 0);
+    usable[alg] = (WIFEXITED(st) && WEXITSTATUS(st) == 0) ? 1 : 0;
+    how[alg] = WIFSIGNALED(st) ? "killed by signal " + std::to_string(WTERMSIG(st)) : "exit status " + std::to_string(WEXITSTATUS(st));
   }
-  if (prof) { double t = vh::elapsed(); vh::C("prof_us_projeq2", (long long)((t - tp0) * 1e6)); tp0 = t; }
-  if (!ln->removed_points.empty()) { SB_.removed++; SB_.oc["B|point-removed|" + cls]++; return; }
+  if (!usable[alg]) {
+    vh::V(std::string("C05|project_equations(A,b,w)|crash|") + ALGS[alg], cstr,
+          "LocalNetwork::project_equations(Mat&,Vec&,Vec&) in a forked probe: " + how[alg] + " (member Asp is " + (ln->Asp ? "set" : "null") +
+          " after project_equations()); rows taken from AdjInputData::mat() instead");
+    const GNU_gama::SparseMatrix<>* M = ln->Asp ? ln->Asp : ln->input.mat();
+    if (!M) { vh::V("C05|project_equations(A,b,w)|no-design-matrix", cstr, "neither Asp nor input.mat()"); return false; }
+    A.reset(M->rows(), M->columns()); A.set_zero(); b.reset(M->rows()); w.reset(M->rows());
+    for (int i = 1; i <= (int)M->rows(); i++) {
+      double* nb = M->begin(i); double* ne = M->end(i); int* ib = M->ibegin(i);
+      while (nb != ne) A(i, *ib++) = *nb++;
+      b(i) = ln->rhs(i); w(i) = ln->weight_obs(i);
+    }
+  } else {
+    ln->project_equations(A, b, w);
+  }
+  if (prof) vh::C("prof_us_projeq", (long long)((vh::elapsed() - tp0) * 1e6));
+  SB_.builds++;
+  return true;
+}
 
-  // linearisation point = what the input file said (the harness's truth), in gama's internal frame
-  ro::Geo g = n.truth;
-  LocalPoint* P[3];
-  for (int q = 0; q < 3; q++) {
+// The whole oracle on one build.  `moved`: the approximate coordinates may differ from the given ones
+// (after refine_approx_coordinates); the reference rows are then computed at the current coordinates.
+static bool oracle_B(LocalNetwork* ln, const NetB& n, const Mat& A, const Vec& b, const Vec& w, const char* step, int alg_now,
+                     bool moved, const std::string& cstr, bool sample) {
+  const bool verbose = vh::ctx().verbose;
+  static const bool prof = vh::ctx().opt.count("prof") > 0;
+  double tp0 = prof ? vh::elapsed() : 0;
+  const ro::Frame& F = n.F;
+  const std::string cls = std::string(ALGS[alg_now]) + (F.consistent() ? "|consistent|" : "|inconsistent|") + step;
+  if (verbose) printf("# ---- %s (%s)\n", step, ALGS[alg_now]);
+  if (!ln->removed_points.empty()) { SB_.removed++; SB_.oc["B|point-removed|" + cls]++; return false; }
+
+  // linearisation point: the approximate coordinates of the object, turned back into the frame of the input
+  ro::P3 cur[NPB];
+  LocalPoint* P[NPB];
+  for (int q = 0; q < NPB; q++) {
     P[q] = &ln->PD[PID[q]];
-    if (P[q]->x() != (double)g.p[q].x || P[q]->y() != (double)(F.y_sign() * g.p[q].y) || P[q]->z() != (double)g.p[q].z) {
-      vh::V("C05|net-approximate-coordinates|" + cls, cstr, std::string("point ") + PID[q] + " is not at the given coordinates (y mirrored iff inconsistent)");
-      return;
+    cur[q] = ro::P3(HASXY[q] ? (LD)P[q]->x() : 0.0L, HASXY[q] ? (LD)(F.y_sign() * P[q]->y()) : 0.0L, HASZ[q] ? (LD)P[q]->z() : 0.0L);
+    if (P[q]->test_xy() != HASXY[q] || P[q]->test_z() != HASZ[q] || P[q]->active_xy() != HASXY[q] || P[q]->active_z() != HASZ[q]) {
+      vh::V("C05|net-point-parts|" + cls, cstr, std::string("point ") + PID[q] + " does not have exactly the coordinate parts / status parts of the input"); return false;
     }
+    LD dmax = std::max(std::max(fabsl(cur[q].x - n.given[q].x), fabsl(cur[q].y - n.given[q].y)), fabsl(cur[q].z - n.given[q].z));
+    if (!moved && dmax != 0) {
+      vh::V("C05|net-approximate-coordinates|" + cls, cstr, std::string("point ") + PID[q] + " is not at the given coordinates (y mirrored iff inconsistent)");
+      return false;
+    }
+    if (moved && !(dmax <= 5.0L)) { SB_.moved++; SB_.oc["B|refined-coordinates-left-the-alphabet(>5m)|" + cls]++; return false; }
+  }
+  std::vector<RefRowB> local;
+  const std::vector<RefRowB>* rows = &refrowsB;
+  if (moved) {
+    if (!reference_rows_B(F, n.G, cur, local)) { vh::V("harness|reference-not-converged|net", cstr, step); return false; }
+    rows = &local;
   }
   std::vector<StandPoint*> sps;
   for (auto c : ln->OD.clusters) if (StandPoint* s = dynamic_cast<StandPoint*>(c)) sps.push_back(s);
   const int m = A.rows(), U = A.cols();
-  if (m != (int)n.G.size()) { vh::V("C05|net-row-count|" + cls, cstr, "rows " + std::to_string(m) + " observations written " + std::to_string(n.G.size())); return; }
-  if ((int)sps.size() != 3) { vh::V("harness|standpoints", cstr, std::to_string(sps.size())); return; }
+  if (U > MAXU) { vh::V("C05|net-unknowns-count|" + cls, cstr, "A has " + std::to_string(U) + " columns"); return false; }
+  if (m != (int)n.G.size()) { vh::V("C05|net-row-count|" + cls, cstr, "rows " + std::to_string(m) + " observations written " + std::to_string(n.G.size())); return false; }
+  if ((int)sps.size() != 3) { vh::V("harness|standpoints", cstr, std::to_string(sps.size())); return false; }
+  if (U != ln->unknowns_count()) { vh::V("C05|net-unknowns-count|" + cls, cstr, "A has " + std::to_string(U) + " columns, unknowns_count() " + std::to_string(ln->unknowns_count())); return false; }
 
-  // owner of every column
-  std::vector<std::string> owner(U + 1);
-  bool okcols = true;
-  auto claim = [&](int idx, const std::string& who) {
-    if (idx == 0) return;
-    if (idx < 1 || idx > U || !owner[idx].empty()) { okcols = false; vh::V("C05|net-index-bijection|" + cls, cstr, who + " has index " + std::to_string(idx) + (idx >= 1 && idx <= U ? " already owned by " + owner[idx] : " outside 1..unknowns")); }
-    else owner[idx] = who;
+  // owner of every column: every index a point / station carries must be a column of its own;
+  // a coordinate that is fixed (or a part the point does not have) must not carry an index.
+  // owner code: 3*q + axis for coordinates of point q, 100 + s for the orientation of station s
+  int owner[MAXU + 1];
+  for (int c = 0; c <= U; c++) owner[c] = -1;
+  auto oname = [&](int code) -> std::string {
+    if (code < 0) return "nobody";
+    if (code >= 100) return std::string("ori.") + sps[code - 100]->station.str();
+    return std::string(PID[code / 3]) + "." + "xyz"[code % 3];
   };
-  for (int q = 0; q < 3; q++) {
-    claim(P[q]->index_x(), std::string(PID[q]) + ".x"); claim(P[q]->index_y(), std::string(PID[q]) + ".y"); claim(P[q]->index_z(), std::string(PID[q]) + ".z");
+  bool okcols = true;
+  auto claim = [&](int idx, int code, bool may_have) {
+    if (idx == 0) return;
+    if (!may_have) { okcols = false; vh::V("C05|net-index-of-fixed-or-absent|" + cls, cstr, oname(code) + " is not an unknown but carries index " + std::to_string(idx)); return; }
+    if (idx < 1 || idx > U || owner[idx] >= 0) { okcols = false; vh::V("C05|net-index-bijection|" + cls, cstr, oname(code) + " has index " + std::to_string(idx) + (idx >= 1 && idx <= U ? " already owned by " + oname(owner[idx]) : " outside 1.." + std::to_string(U))); }
+    else owner[idx] = code;
+  };
+  for (int q = 0; q < NPB && okcols; q++) {
+    claim(P[q]->index_x(), 3 * q, HASXY[q] && P[q]->free_xy());
+    if (okcols) claim(P[q]->index_y(), 3 * q + 1, HASXY[q] && P[q]->free_xy());
+    if (okcols) claim(P[q]->index_z(), 3 * q + 2, HASZ[q] && P[q]->free_z());
   }
-  for (int s = 0; s < 3; s++) claim(sps[s]->index_orientation(), std::string("ori.") + sps[s]->station.str());
-  for (int c = 1; c <= U && okcols; c++) if (owner[c].empty()) { okcols = false; vh::V("C05|net-index-bijection|" + cls, cstr, "column " + std::to_string(c) + " of " + std::to_string(U) + " has no owner"); }
-  if (!okcols) return;
+  for (int s = 0; s < 3 && okcols; s++) claim(sps[s]->index_orientation(), 100 + s, true);
+  for (int c = 1; c <= U && okcols; c++) if (owner[c] < 0) { okcols = false; vh::V("C05|net-index-bijection|" + cls, cstr, "column " + std::to_string(c) + " of " + std::to_string(U) + " has no owner"); }
+  if (!okcols) return false;
   // gama's own list of unknowns must name the same owners
+  static const PointID PIDS[NPB] = { PointID("A"), PointID("B"), PointID("C"), PointID("D"), PointID("E") };
   for (int c = 1; c <= U; c++) {
-    char ty = ln->unknown_type(c);
-    std::string who = (ty == 'R' ? std::string("ori.") : ln->unknown_pointid(c).str() + ".") + (ty == 'R' ? ln->unknown_pointid(c).str() : std::string(1, (char)tolower(ty)));
-    if (who != owner[c]) { vh::V("C05|net-unknown-list|" + cls, cstr, "column " + std::to_string(c) + " owner " + owner[c] + " listed as " + who); return; }
+    const char ty = ln->unknown_type(c);
+    const int code = owner[c];
+    bool same;
+    if (code >= 100) same = ty == 'R' && ln->unknown_standpoint(c) == sps[code - 100] && ln->unknown_pointid(c) == sps[code - 100]->station;
+    else same = ty == "XYZ"[code % 3] && ln->unknown_pointid(c) == PIDS[code / 3];
+    if (!same) { vh::V("C05|net-unknown-list|" + cls, cstr, "column " + std::to_string(c) + " owner " + oname(code) + " listed as " + ln->unknown_pointid(c).str() + "/" + std::string(1, ty)); return false; }
   }
 
-  // reference rows depend on (frame, offset, placement, observation) only: computed once per placement
-  {
-    std::ostringstream k; k << L.tag << ":" << fno << ":" << off << ":" << pi[0] << ":" << pi[1] << ":" << pi[2];
-    if (k.str() != refkeyB) {
-      refkeyB = k.str(); refrowsB.assign(n.G.size(), RefRowB());
-      for (size_t r = 0; r < n.G.size(); r++) {
-        const GObs& o = n.G[r];
-        ro::Geo go; go.p[0] = g.p[o.from]; go.p[1] = g.p[o.to < 0 ? o.from : o.to]; go.p[2] = g.p[o.fs < 0 ? o.from : o.fs]; go.ori = 0;
-        ro::Spec s(o.t, o.fdh, o.tdh);
-        LD err = 0;
-        ro::reference_row(F, s, go, refrowsB[r].ref, &err);
-        refrowsB[r].scale = ro::coef_scale(s, go);
-        if (err > 1e-9L * refrowsB[r].scale) { vh::V("harness|reference-not-converged|net", cstr, "row " + std::to_string(r + 1)); refkeyB.clear(); return; }
-      }
-    }
-  }
+  bool allok = true;
   for (int r = 1; r <= m; r++) {
     const GObs& o = n.G[r - 1];
     Observation* po = ln->ptr_obs(r);
     SB_.rows++;
     RowResult rr; rr.ok = true;
     ro::Type dt = dyn_type(po);
-    const bool same = dt == o.t && po->from().str() == PID[o.from] && (ro::npoints(o.t) < 2 || po->to().str() == PID[o.to]) &&
-                      (o.t != ro::ANGLE || static_cast<Angle*>(po)->fs().str() == PID[o.fs]);
-    if (!same) { vh::V("C05|net-row-order|" + cls, cstr, "row " + std::to_string(r) + " is not the " + std::to_string(r) + "-th observation of the input"); return; }
-    // reference row
-    ro::Geo go; go.p[0] = g.p[o.from]; go.p[1] = g.p[o.to < 0 ? o.from : o.to]; go.p[2] = g.p[o.fs < 0 ? o.from : o.fs];
+    const bool same = dt == o.t && po->from() == PIDS[o.from] && (ro::npoints(o.t) < 2 || po->to() == PIDS[o.to]) &&
+                      (o.t != ro::ANGLE || static_cast<Angle*>(po)->fs() == PIDS[o.fs]);
+    if (!same) { vh::V("C05|net-row-order|" + cls, cstr, "row " + std::to_string(r) + " is not the " + std::to_string(r) + "-th observation of the input"); return false; }
+    ro::Geo go = geo_of(cur, o);
     StandPoint* sp = o.station >= 0 ? sps[o.station] : 0;
-    go.ori = 0;
     ro::Spec s(o.t, o.fdh, o.tdh);
-    const LD* ref = refrowsB[r - 1].ref;
-    const LD scale = refrowsB[r - 1].scale;
+    const LD* ref = (*rows)[r - 1].ref;
+    const LD scale = (*rows)[r - 1].scale;
     if (o.t == ro::DIRECTION) go.ori = (LD)sp->orientation();
-    // the observed value as parsed: the text written -> double -> (gon to rad)
-    const double written = strtod(num(ro::angular(o.t) ? ro::rad2gon(o.obs) : o.obs).c_str(), 0);
-    const LD observed = ro::angular(o.t) ? (LD)written * ro::PI / 200.0L : (LD)written;
-    const LD rhs_ref = ro::reference_rhs(F, s, go, observed);
+    const LD rhs_ref = ro::reference_rhs(F, s, go, o.parsed);
     // expected columns
     const int pidx[3] = { o.from, o.to < 0 ? o.from : o.to, o.fs < 0 ? o.from : o.fs };
-    std::vector<LD> exp(U + 1, 0.0L); std::vector<char> may(U + 1, 0);
+    LD exp[MAXU + 1]; char may[MAXU + 1];
+    for (int c = 0; c <= U; c++) { exp[c] = 0; may[c] = 0; }
     int nexp = 0;
     for (int v = 0; v < 10; v++) {
       if (!ro::depends(o.t, v)) continue;
@@ -705,96 +765,183 @@ static void checkB(const Lattice& L, int fno, int off, const int pi[3], int stat
       exp[col] += ref[v]; may[col] = 1; nexp++;
     }
     for (int c = 1; c <= U && rr.ok; c++) {
-      LD tol = may[c] ? 1e-6L * fabsl(exp[c]) + 1e-9L * (owner[c].compare(0, 4, "ori.") == 0 ? 1.0L : scale) : 0.0L;
+      LD tol = may[c] ? 1e-6L * fabsl(exp[c]) + 1e-9L * (owner[c] >= 100 ? 1.0L : scale) : 0.0L;
       LD d = fabsl((LD)A(r, c) - exp[c]);
       if (!(d <= tol)) {
         rr.ok = false;
         rr.clause = !may[c] ? "net-coeff-of-fixed-or-unrelated" : (fabsl((LD)A(r, c) + exp[c]) <= tol ? "net-coeff-sign" : "net-coeff");
-        rr.detail = "row " + std::to_string(r) + " column " + owner[c] + ": gama " + vh::str(A(r, c)) + " reference " + vh::str((double)exp[c]);
+        rr.detail = "row " + std::to_string(r) + " column " + oname(owner[c]) + ": gama " + vh::str(A(r, c)) + " reference " + vh::str((double)exp[c]);
       }
     }
-    if (rr.ok) { compare_rhs(o.t, rhs_ref, b(r), rr); if (!rr.ok) rr.clause = "net-" + rr.clause; }
+    if (rr.ok) {
+      // after a refinement the from_dh/to_dh reduction is only renewed when it changes by more than the
+      // documented tolerance of refine_obsdh_reductions (1e-6 m, 0.1 cc): that much slack for those rows, then
+      LD slack = (moved && ro::uses_dh(o.t) && o.fdh != o.tdh) ? (ro::angular(o.t) ? 0.1L : 1e-3L) : 0.0L;
+      compare_rhs(o.t, rhs_ref, b(r), rr, slack);
+      if (!rr.ok) rr.clause = "net-" + rr.clause;
+    }
     if (rr.ok) {
       LD wref = ((LD)n.m0 / (LD)o.stdev) * ((LD)n.m0 / (LD)o.stdev);
       if (!(fabsl((LD)w(r) - wref) <= 1e-12L * wref)) { rr.ok = false; rr.clause = "net-weight"; rr.detail = "row " + std::to_string(r) + " weight " + vh::str(w(r)) + " expected (m0/sigma)^2 = " + vh::str((double)wref); }
     }
     if (rr.ok && ln->rhs(r) != b(r)) { rr.ok = false; rr.clause = "net-rhs-accessor"; rr.detail = "rhs(i) differs from b(i)"; }
     if (nexp > (o.t == ro::DIRECTION ? 1 : 0)) SB_.nontrivial++;
-    SB_.oc[std::string("B|") + ro::type_name(o.t) + "|coefficients=" + std::to_string(nexp) + "|rhs=" + RHSC[rhs_class(o.t, b(r))]]++;
+    SB_.occ[o.t][std::min(nexp, 6)][rhs_class(o.t, b(r))]++;
     if (verbose) {
       printf("# row %d %s %s->%s rhs %.10g (ref %.10Lg) w %.10g :", r, ro::type_name(o.t), PID[o.from], o.to < 0 ? "-" : PID[o.to], b(r), rhs_ref, w(r));
-      for (int c = 1; c <= U; c++) if (A(r, c) != 0 || may[c]) printf("  %s %.10g (ref %.10Lg)", owner[c].c_str(), A(r, c), exp[c]);
+      for (int c = 1; c <= U; c++) if (A(r, c) != 0 || may[c]) printf("  %s %.10g (ref %.10Lg)", oname(owner[c]).c_str(), A(r, c), exp[c]);
       printf("\n");
     }
-    if (vh::ctx().samples < 2 && rr.ok && r == 9 && nexp == 6) {
+    if (sample && vh::ctx().samples < 2 && rr.ok && o.t == ro::ANGLE && nexp == 6) {
       std::ostringstream x; x.precision(12);
-      x << cstr << " row 9 (angle at A from B to C, " << ALGS[alg] << ", frame " << F.str() << ") b " << b(r) << " (reference " << (double)rhs_ref << ") w " << w(r) << " coefficients";
-      for (int c = 1; c <= U; c++) if (may[c]) x << " " << owner[c] << " " << A(r, c) << " (ref " << (double)exp[c] << ")";
+      x << cstr << " " << step << " row " << r << " (angle at " << PID[o.from] << " from " << PID[o.to] << " to " << PID[o.fs] << ", " << ALGS[alg_now] << ", frame " << F.str() << ") b " << b(r) << " (reference " << (double)rhs_ref << ") w " << w(r) << " coefficients";
+      for (int c = 1; c <= U; c++) if (may[c]) x << " " << oname(owner[c]) << " " << A(r, c) << " (ref " << (double)exp[c] << ")";
       vh::X(x.str());
     }
     if (!rr.ok) {
+      allok = false;
       std::string sig = "C05|" + rr.clause + "|" + ro::type_name(o.t);
       if (ro::uses_dh(o.t)) sig += std::string("|") + (o.fdh == 0 && o.tdh == 0 ? "dh0" : (o.fdh == o.tdh ? "dh-equal" : "dh-unequal"));
       vh::V(sig + "|" + cls, cstr, rr.detail);
     }
   }
 
-  if (prof) { double t = vh::elapsed(); vh::C("prof_us_oracle", (long long)((t - tp0) * 1e6)); tp0 = t; }
   // the same rows from a LocalLinearization run by the harness over the same observations
   {
     std::vector<int> saved;
-    for (int q = 0; q < 3; q++) { saved.push_back(P[q]->index_x()); saved.push_back(P[q]->index_y()); saved.push_back(P[q]->index_z()); P[q]->index_x() = P[q]->index_y() = P[q]->index_z() = 0; }
+    for (int q = 0; q < NPB; q++) { saved.push_back(P[q]->index_x()); saved.push_back(P[q]->index_y()); saved.push_back(P[q]->index_z()); P[q]->index_x() = P[q]->index_y() = P[q]->index_z() = 0; }
     for (int s = 0; s < 3; s++) { saved.push_back(sps[s]->index_orientation()); sps[s]->index_orientation(0); }
     LocalLinearization lin(ln->PD, n.m0);
     bool ok = true;
     for (int r = 1; r <= m && ok; r++) {
       ln->ptr_obs(r)->accept(&lin);
-      std::vector<double> row(U + 1, 0.0);
+      double row[MAXU + 1];
+      for (int c = 0; c <= U; c++) row[c] = 0;
       for (long e = 0; e < lin.size; e++) { if (lin.index[e] < 1 || lin.index[e] > U) { ok = false; break; } row[lin.index[e]] += lin.coeff[e]; }
       for (int c = 1; c <= U && ok; c++) if (row[c] != A(r, c)) ok = false;
       if (ok && lin.rhs != b(r)) ok = false;
-      if (!ok) vh::V("C05|net-row-differs-from-LocalLinearization|" + cls, cstr, "row " + std::to_string(r));
+      if (!ok) { allok = false; vh::V("C05|net-row-differs-from-LocalLinearization|" + cls, cstr, "row " + std::to_string(r)); }
     }
     std::vector<int> now;
-    for (int q = 0; q < 3; q++) { now.push_back(P[q]->index_x()); now.push_back(P[q]->index_y()); now.push_back(P[q]->index_z()); }
+    for (int q = 0; q < NPB; q++) { now.push_back(P[q]->index_x()); now.push_back(P[q]->index_y()); now.push_back(P[q]->index_z()); }
     for (int s = 0; s < 3; s++) now.push_back(sps[s]->index_orientation());
-    if (ok && (now != saved || lin.unknowns() != U)) vh::V("C05|net-index-assignment-not-reproducible|" + cls, cstr, "indices after a second linearisation differ");
+    if (ok && (now != saved || lin.unknowns() != U)) { allok = false; vh::V("C05|net-index-assignment-not-reproducible|" + cls, cstr, "indices after a linearisation from scratch differ from those of the object"); }
+  }
+  if (prof) vh::C("prof_us_oracle", (long long)((vh::elapsed() - tp0) * 1e6));
+  (void)allok;
+  return true;    // row level violations are reported; the history goes on (false = structure broken, stop)
+}
+
+static void checkB(const Lattice& L, int fno, int off, const int pi[3], int status, int alg, int variant, int m0i) {
+  const bool verbose = vh::ctx().verbose;
+  std::ostringstream cs;
+  cs << "B:" << L.tag << ":" << fno << ":" << off << ":" << pi[0] << ":" << pi[1] << ":" << pi[2] << ":" << status << ":" << alg << ":" << variant << ":" << m0i;
+  const std::string cstr = cs.str();
+  static const bool prof = vh::ctx().opt.count("prof") > 0;
+  double tp0 = prof ? vh::elapsed() : 0;
+  NetB n = build_net(L, fno, off, pi, status, alg, variant, m0i);
+  if (prof) { double t = vh::elapsed(); vh::C("prof_us_build", (long long)((t - tp0) * 1e6)); tp0 = t; }
+  const ro::Frame& F = n.F;
+  const std::string cls0 = std::string(ALGS[alg]) + (F.consistent() ? "|consistent" : "|inconsistent");
+  if (verbose) printf("%s\n", n.xml.c_str());
+  SB_.nets++;
+  // reference rows at the given coordinates: once per (frame, offset, placement)
+  {
+    std::ostringstream k; k << L.tag << ":" << fno << ":" << off << ":" << pi[0] << ":" << pi[1] << ":" << pi[2];
+    if (k.str() != refkeyB) {
+      refkeyB = k.str();
+      if (!reference_rows_B(F, n.G, n.given, refrowsB)) { vh::V("harness|reference-not-converged|net", cstr, "given coordinates"); refkeyB.clear(); return; }
+    }
+  }
+  std::unique_ptr<LocalNetwork> ln(new LocalNetwork);
+  try {
+    GKFparser gkf(*ln);
+    gkf.xml_parse(n.xml.c_str(), (int)n.xml.size(), 1);
+  } catch (const GNU_gama::local::ParserException& e) {
+    vh::V("harness|generated-input-rejected", cstr, std::string(e.what()) + " line " + std::to_string(e.line)); return;
+  } catch (const GNU_gama::local::Exception& e) {
+    vh::V("harness|generated-input-rejected", cstr, e.what()); return;
+  }
+  if (prof) { double t = vh::elapsed(); vh::C("prof_us_parse", (long long)((t - tp0) * 1e6)); tp0 = t; }
+  Mat A; Vec b, w;
+  int alg_now = alg;
+  const char* step = "first";
+  try {
+    // the route of gama-local
+    if (!ln->has_algorithm()) ln->set_algorithm();
+    ln->remove_inconsistency();
+    Acord2 acord2(ln->PD, ln->OD);
+    acord2.execute();
+    refine_obsdh_reductions(ln.get());
+    if (prof) { double t = vh::elapsed(); vh::C("prof_us_acord", (long long)((t - tp0) * 1e6)); tp0 = t; }
+    if (!build_B(ln.get(), alg_now, A, b, w, cstr)) return;
+    if (!oracle_B(ln.get(), n, A, b, w, step, alg_now, false, cstr, true)) return;
+
+    // re-linearisations of the same object; the order of the five ways rotates with the status code
+    bool moved = false;
+    for (int e = 0; e < 5; e++) {
+      switch ((e + status) % 5) {
+        case 0: step = "after-update_points"; ln->update_points(); break;
+        case 1: step = "after-update_observations"; ln->update_observations(); break;
+        case 2: step = "after-update_residuals"; ln->update_residuals(); break;
+        case 3:
+          if (variant != 0) continue;     // variant 1 carries gross (+-100, 200 gon) misclosures: its solution is not a refinement
+          step = "after-refine_approx_coordinates";
+          try { ln->solve(); }
+          catch (const GNU_gama::Exception::base& ex) { SB_.oc[std::string("B|solve-refused|") + cls0]++; continue; }
+          ln->refine_approx_coordinates();
+          refine_obsdh_reductions(ln.get());     // as LocalNetwork::refine_adjustment() does before the next linearisation
+          moved = true;
+          break;
+        default:
+          step = "after-set_algorithm"; alg_now = (alg_now + 1) % 4; ln->set_algorithm(ALGS[alg_now]); break;
+      }
+      if (!build_B(ln.get(), alg_now, A, b, w, cstr)) return;
+      if (!oracle_B(ln.get(), n, A, b, w, step, alg_now, moved, cstr, false)) return;
+    }
+  } catch (const GNU_gama::local::Exception& e) {
+    vh::V("C05|network-throws|" + cls0 + "|" + step, cstr, e.what()); return;
+  } catch (const GNU_gama::Exception::base& e) {
+    vh::V("C05|network-throws|" + cls0 + "|" + step, cstr, e.what()); return;
   }
 }
 
-// Placement sets of stage B on lattice S = {0,100}^2 x {-30,0,40}: P24 = every ordered triple of
-// horizontally distinct points with the heights (0, 40, -30); P648 = every such triple with any heights.
+// Placement sets of stage B on lattice S = {0,100}^2 x {-30,0,40}, A, B, C horizontally distinct:
+//   P2   = A at (0,0), B at (0,100), C at (100,0) or (100,100), heights (0, 40, -30)
+//   P24  = every ordered triple of corners, heights (0, 40, -30)
+//   P648 = every ordered triple of corners with any heights
+// status sets: S6561 = 9^3 (A,B,C) x 3 (D: z only) x 3 (E: xy only); S729 = 9^3 with D and E free
 static void stageB() {
   const bool th = vh::thorough();
   const Lattice& L = lattice('S');
   const int N = (int)L.pts.size();
   uint64_t unit = 1000003;
   for (int pass = 0; pass < (th ? 2 : 1); pass++) {
-    // pass 0: P24 x statuses x frames x algorithms x {offsets, variants, sigma-apr}: quick: offset 5e6, (variant, sigma-apr)
-    //         cycling with status+algorithm; thorough: all 3 offsets x 2 variants x 2 sigma-apr
-    // pass 1 (thorough): P648 \ P24 x statuses x frames x algorithms, offset 5e6, (variant, sigma-apr) cycling
-    std::vector<int> offs = (pass == 0 && th) ? std::vector<int>{0, 1, 2} : std::vector<int>{2};
-    for (int fi = 0; fi < 4; fi++) for (int off : offs)
+    // quick           : P2  x S6561 x frames {ne/L, ne/R}, algorithm cycling with the status code
+    // thorough pass 0 : P24 x S6561 x 4 frames x 4 algorithms
+    // thorough pass 1 : P648 \ P24 x S729 x frames {ne/L, ne/R} x algorithms {envelope, gso} (the sparse and a dense route)
+    // offset, value variant and sigma-apr cycle with status + algorithm + placement (quick and pass 1: offset (5e6,1e6,1000))
+    for (int fi = 0; fi < 4; fi++)
       for (int i = 0; i < N; i++) for (int j = 0; j < N; j++) for (int k = 0; k < N; k++) {
         const int f = FRAMES4[fi];
-        if ((!th || pass == 1) && fi % 2 == 1) continue;     // quick and pass 1: ne/L (consistent) and ne/R (inconsistent)
+        if ((!th || pass == 1) && fi % 2 == 1) continue;
         const auto &a = L.pts[i], &b = L.pts[j], &c = L.pts[k];
         if ((a[0] == b[0] && a[1] == b[1]) || (a[0] == c[0] && a[1] == c[1]) || (b[0] == c[0] && b[1] == c[1])) continue;
         const bool p24 = a[2] == 0 && b[2] == 40 && c[2] == -30;
         if ((pass == 0) != p24) continue;
+        if (!th && !(a[0] == 0 && a[1] == 0 && b[0] == 0 && b[1] == 100)) continue;
         const int pi[3] = { i, j, k };
-        for (int blk = 0; blk < 9; blk++) {
+        const int nstat = pass == 0 ? NSTATUS_B : 729;
+        for (int blk = 0; blk * 81 < nstat; blk++) {
           unit++;
           if (!vh::mine(unit)) continue;
           if (vh::expired()) return;
           for (int status = blk * 81; status < (blk + 1) * 81; status++)
-            for (int alg = 0; alg < 4; alg++) {
-              if (pass == 0 && th) {
-                for (int vm = 0; vm < 4; vm++) checkB(L, f, off, pi, status, alg, vm / 2, vm % 2);
-              } else {
-                int h = status + alg + i + j + k;
-                checkB(L, f, off, pi, status, alg, h & 1, (h >> 1) & 1);
-              }
+            for (int alg = 0; alg < (pass == 1 ? 2 : 4); alg++) {
+              if (!th && alg != (status + fi / 2) % 4) continue;      // quick: the algorithm cycles with the status code
+              int h = status + alg + i + j + k;
+              int off = (th && pass == 0) ? (h / 4) % 3 : 2;
+              checkB(L, f, off, pi, status, alg, h & 1, (h >> 1) & 1);
             }
         }
       }
@@ -823,10 +970,14 @@ int main(int argc, char** argv) {
     if (stage.find('B') != std::string::npos) stageB();
   }
   vh::C("networks", SB_.nets);
+  vh::C("network_builds", SB_.builds);
+  vh::C("networks_refined_out_of_alphabet", SB_.moved);
   vh::C("network_rows", SB_.rows);
   vh::C("evaluations", SB_.rows);
   vh::C("distinct_nontrivial", SB_.nontrivial);
   vh::C("networks_with_removed_point", SB_.removed);
   for (auto& kv : SB_.oc) vh::O(kv.first, kv.second);
+  for (int t = 0; t < ro::NTYPES; t++) for (int k = 0; k < 7; k++) for (int c = 0; c < 5; c++)
+    if (SB_.occ[t][k][c]) vh::O(std::string("B|") + ro::type_name((ro::Type)t) + "|coefficients=" + std::to_string(k) + "|rhs=" + RHSC[c], SB_.occ[t][k][c]);
   return vh::finish();
 }
